@@ -119,6 +119,17 @@ def replay_violation(cdir, res, h, label, pid, tier):
                 r2 = P.replay_run(cdir, res['name'], w, profile='release')
                 rel = {'fails': r2['fails'], 'panic': r2['panic']} if r2 else None
             return {'reproduced': True, 'witness': w, 'native': rr, 'release': rel, 'attempts': attempts}
+    # the printed trace may omit inputs that matter: complete the partial witness natively
+    w2 = P.complete_witness(cdir, res['name'], wit, label)
+    if w2 is not None:
+        rr = P.replay_run(cdir, res['name'], w2)
+        if rr and (label in rr['fails'] or rr['panic']):
+            rel = None
+            if os.path.exists(os.path.join(cdir, 'replay-release')):
+                r2 = P.replay_run(cdir, res['name'], w2, profile='release')
+                rel = {'fails': r2['fails'], 'panic': r2['panic']} if r2 else None
+            return {'reproduced': True, 'witness': w2, 'native': rr, 'release': rel, 'attempts': attempts,
+                    'witness_source': 'solver verdict "violated"; its printed trace omitted inputs, completed by native search with the printed part pinned'}
     return {'reproduced': False, 'why': 'native run does not fail', 'witness': wit, 'attempts': attempts}
 
 
